@@ -31,6 +31,10 @@ META = {
             'timedeltas negative / sub-second / at both ends of the range, dse durations at int32/int64 edges, empty and non-BMP text, '
             'blobs as bytes/bytearray/memoryview, IPv4/IPv6, geometries with boundary coordinates, empty shapes and holes) and, for '
             'GraphSON 3 (GraphSON 1/2: string-keyed maps), every container shape over every scalar plus a second nesting level; '
+            'tuples (the one hashable container, GraphSON 3 only) are nested 2 and 3 levels deep (thorough: 4) in every shape built from '
+            '(s,), (s, filler), (filler, s) per level, with every kind at the bottom, and placed as set members, map keys (int and '
+            'nested-tuple values), inside list<set>, tuple<map>, map<text,map<.., list>> and, for comparison, as list members; per kind '
+            'and depth one set and one map carry every boundary value of the kind at the bottom, and one member mixes leaves at depths 1..4; '
             'serialize -> json.dumps -> json.loads -> deserialize must give back an equal value of the same python type '
             '(1, 1.0 and True differ, NaN equals NaN, -0.0 differs from 0.0).',
     'note': 'Documented normalisations accepted: blobs come back as bytearray, inet addresses as their canonical text, '
@@ -145,6 +149,7 @@ class UdtObject(object):
 
 Addr = collections.namedtuple('Addr', ['street', 'zip', 'tags'])
 Pair = collections.namedtuple('Pair', ['first', 'second'])
+KV = collections.namedtuple('KV', ['k', 'v'])          # a UDT without collection fields: hashable when its field values are
 
 
 def short(x, n=200):
@@ -363,7 +368,112 @@ def container_cases(groups, thorough):
         ('list<list<list<int>>>', [[[1, 2], []], [[3]]], True),
         ('map<int,map<int,int>>', {1: {2: 3}, 4: {}}, True),
     ]
+    return out + nested_hashable_cases(groups, thorough)
+
+
+# tuples are the one hashable container: nested inside each other to any depth they stay legal set members / map keys
+FILLERS = (7, 'x')
+
+
+def tuple_paths(depth):
+    """Every way to put a leaf under `depth` tuple levels where each level is o = (s,), f = (s, filler) or l = (filler, s)."""
+    paths = ['']
+    for _ in range(depth):
+        paths = [p + c for p in paths for c in 'ofl']
+    return paths
+
+
+def nest(path, leaf):
+    """path is read outermost level first: nest('lo', x) == (7, (x,))."""
+    x = leaf
+    for i, c in enumerate(reversed(path)):
+        f = FILLERS[i % len(FILLERS)]
+        x = (x,) if c == 'o' else ((x, f) if c == 'f' else (f, x))
+    return x
+
+
+def unhashable_depth(x, d=0):
+    """Number of tuple levels above the shallowest unhashable part of x (None: x is hashable)."""
+    if isinstance(x, tuple):
+        ds = [n for n in (unhashable_depth(y, d + 1) for y in x) if n is not None]
+        return min(ds) if ds else None
+    try:
+        hash(x)
+    except TypeError:
+        return d
+    return None
+
+
+def nested_hashable_cases(groups, thorough):
+    """Tuples nested 2..3 (thorough: ..4) levels deep as set members and map keys (and, for comparison, as list members),
+    over every shape of tuple_paths() and every kind. -> list of (label, value, needs_g3)"""
+    out = []
+    depths = (2, 3, 4) if thorough else (2, 3)
+    for kind, vals in groups.items():
+        a, b = vals[0], vals[1]
+        allv = list(vals)
+        for d in depths:
+            for path in tuple_paths(d):
+                ha, hb = nest(path, a), nest(path, b)
+                t = 'tup[%s]<%s>' % (path, kind)
+                out.append(('list<%s>' % t, [ha, hb], True))
+                if kind not in HASHABLE:
+                    continue
+                out.append(('set<%s>' % t, {ha, hb}, True))
+                out.append(('map<%s,int>' % t, {ha: 1, hb: 2}, True))
+                out.append(('map<%s,%s>' % (t, t), {ha: hb, hb: ha}, True))
+                if d == 2 or thorough:
+                    out.append(('list<set<%s>>' % t, [{ha}, {ha, hb}], True))
+                    out.append(('tuple<map<%s,%s>,text>' % (t, kind), ({ha: b}, 'x'), True))
+                    out.append(('map<text,map<%s,list<%s>>>' % (t, t), {'x': {ha: [hb], hb: []}, 'y': {}}, True))
+            if kind in HASHABLE:
+                # every boundary value of the kind at the bottom of a d-level tuple (the index keeps the members distinct)
+                out.append(('set<tup*%d<%s>>/all' % (d, kind), {(i, nest('o' * (d - 1), x)) for i, x in enumerate(allv)}, True))
+                out.append(('map<tup*%d<%s>,%s>/all' % (d, kind, kind), {(nest('f' * (d - 1), x), i): x for i, x in enumerate(allv)}, True))
+        if kind in HASHABLE:
+            # a UDT mapped to a namedtuple is the other hashable container (set<frozen<udt>>, map<frozen<udt>, ..>)
+            ua, ub = KV('a', a), KV('b', b)
+            out.append(('set<udtkv<%s>>' % kind, {ua, ub}, True))
+            out.append(('map<udtkv<%s>,int>' % kind, {ua: 1, ub: 2}, True))
+            out.append(('set<tuple<int,udtkv<%s>>>' % kind, {(1, ua), (2, ub)}, True))
+            out.append(('set<udtkv<tuple<%s>>>' % kind, {KV('a', (a, 1)), KV('b', ((b,), 2))}, True))
+            out.append(('map<udtkv<udtkv<%s>>,udtkv>' % kind, {KV('o', ua): ub, KV('p', ub): ua}, True))
+            out.append(('list<udtkv<%s>>' % kind, [ua, ub, KV('c', (a, (b,)))], True))
+            # leaves of one member at different depths
+            mixed = (a, (b, (a, (b,))))
+            out.append(('set<tup-mixed<%s>>' % kind, {mixed, (b, (a,))}, True))
+            out.append(('map<tup-mixed<%s>,tup-mixed>' % kind, {mixed: mixed, (b, (a,)): (a,)}, True))
     return out
+
+
+def _leaves(x):
+    if isinstance(x, tuple):
+        return [z for y in x for z in _leaves(y)]
+    return [x]
+
+
+def _has_namedtuple(x):
+    return isinstance(x, tuple) and (type(x) is not tuple or any(_has_namedtuple(y) for y in x))
+
+
+def min_failing_tuple_depth(env, version, v, c):
+    """Fewest tuple levels d such that a one-member set (map: one key) holding a leaf of c under d levels fails to round-trip,
+    probing only the leaves that come back unhashable on their own."""
+    bad = []
+    for leaf in _leaves(c):
+        try:
+            hash(leaf)                         # a list/set/dict (a map value) cannot be a member or key in the first place
+            if unhashable_depth(env.roundtrip(version, leaf)[1]) is not None:
+                bad.append(leaf)
+        except Exception:
+            pass
+    for d in range(0, 6):
+        for leaf in bad:
+            h = nest('o' * d, leaf)
+            probe = {h} if isinstance(v, set) else {h: 0}
+            if attempt(probe, lambda: env.roundtrip(version, probe)[1]) is not None:
+                return d
+    return None
 
 
 def wrapper_cases():
@@ -412,6 +522,8 @@ class Env(object):
         cl._user_types['gk']['addr'] = Addr              # what Cluster.register_user_type records
         cl._user_types['gk']['addrobj'] = UdtObject
         cl._user_types['gk']['pair'] = Pair
+        ks.user_types['kv'] = UserType('gk', 'kv', ['k', 'v'], ['text', 'text'])
+        cl._user_types['gk']['kv'] = KV
         self.context = {'cluster': cl, 'graph_name': 'gk'}
 
     def unwrap(self, v):
@@ -505,12 +617,18 @@ def fingerprint(env, groups, version, v, fail, entry):
         diag = 'children-pass'
         for c in children(v):
             try:
-                hash(env.roundtrip(version, c)[1])
-            except TypeError:
-                if isinstance(v, (set, dict)):
-                    diag = 'element-comes-back-unhashable'
+                n = unhashable_depth(env.roundtrip(version, c)[1])
             except Exception:
-                pass
+                continue
+            if n is not None and isinstance(v, (set, dict)):
+                diag = 'element-comes-back-unhashable'
+                d = min_failing_tuple_depth(env, version, v, c)
+                if d is not None and d >= 2:
+                    diag += '/only-under-nested-tuples'       # directly and under one tuple level the same element is fine
+                    break
+                if d is None and _has_namedtuple(c):
+                    diag += '/only-inside-namedtuple-udt'     # under plain tuples of any depth the same element is fine
+                    break
         return 'C40/g%d/%s/%s/%s' % (version, name, fail.kind, diag)
     kind = kind_of_leaf(groups, v)
     cls_ = input_class(kind, v) if kind else 'any'
@@ -651,7 +769,10 @@ def run(ctx):
     ctx.cov['rule'] = ('cases = every boundary value of every kind x entry points {TypeIO class level, GraphSON1 serializer + each '
                        'GraphSON1Deserializer method/type tag for the kind, GraphSON2 reader, GraphSON3 reader} + TypeIOWrapper forced types '
                        'x in-range values + container shapes (35 per kind: string-keyed maps in all versions; list/set/map/tuple/UDT(namedtuple '
-                       'and class)/nested depth 2 in GraphSON 3) + kind-independent shapes; non-trivial = any container case or any value '
+                       'and class)/nested depth 2 in GraphSON 3) + kind-independent shapes + nested tuples (3**d shapes for each depth d in 2..3, '
+                       'thorough 2..4, x kind x placements {list member; hashable kinds: set member, map key -> int, map key -> nested tuple; '
+                       'd = 2 or thorough: list<set>, tuple<map>, map<text,map<..,list>>} + per hashable kind and depth set/all and map/all + '
+                       'mixed-depth member); non-trivial = any container case or any value '
                        'other than the first (ordinary) one of its kind')
     ctx.cov['exhaustive'] = True
     ctx.assume('timezone-aware datetimes/times are left out (they come back naive in UTC by design)')
@@ -662,7 +783,8 @@ def run(ctx):
     ctx.assume('GraphSON 1 containers are read back as plain JSON (no typed reader exists): only JSON-native leaves (str, bool, int, float)')
     ctx.assume('blobs come back as bytearray, inet addresses as canonical text, TypeIOWrapper values as the wrapped value (documented)')
     ctx.assume('UDT context: a stand-in object with the two attributes the GraphSON code reads (metadata.keyspaces[..].user_types, _user_types)')
-    ctx.assume('python sets cannot hold lists/sets/dicts; set elements and map keys are scalars and tuples only')
+    ctx.assume('python sets cannot hold lists/sets/dicts; set elements and map keys are scalars and tuples (nested to depth 3, thorough 4) only; '
+               'frozenset has no GraphSON serializer')
 
 
 def replay(ctx, data):
